@@ -38,6 +38,9 @@ type spec struct {
 	// is full (every write litestream issues there fails with ENOSPC)
 	DiskFull bool `json:"disk_full,omitempty"`
 	// Kind "locks": cross-process scenario (litestream in a process of its own), see locks.go
+	// StartDelete: the application created its database in rollback-journal mode (DELETE);
+	// litestream switches it to WAL when it first opens it, and it must stay in WAL mode
+	StartDelete bool   `json:"start_delete,omitempty"`
 	Kind        string `json:"kind,omitempty"`
 	LockVariant int    `json:"lock_variant,omitempty"`
 }
@@ -100,6 +103,25 @@ func cases(run *vf.Run) ([]json.RawMessage, error) {
 			Density:  4 + rng.Intn(3),
 			Cfg:      cfg,
 			DiskFull: true,
+		}))
+	}
+	// databases the application created in rollback-journal mode
+	nd := 6
+	if run.Tier == "thorough" {
+		nd = 60
+	}
+	for i := 0; i < nd; i++ {
+		rng := rand.New(rand.NewSource(vf.SubSeed(run.Seed, "C14D", i)))
+		cfg := hist.RandomConfig(rng)
+		cfg.PageSize = hist.PageSizes[(i+4)%len(hist.PageSizes)]
+		cfg.AutoVacuum = i % 3
+		out = append(out, vf.Spec(spec{
+			Seed:        vf.SubSeed(run.Seed, "C14D-app", i),
+			LSSeed:      vf.SubSeed(run.Seed, "C14D-ls", i),
+			Items:       40 + rng.Intn(25),
+			Density:     3 + rng.Intn(3),
+			Cfg:         cfg,
+			StartDelete: true,
 		}))
 	}
 	nl := 2
@@ -233,6 +255,7 @@ type world struct {
 	ls       *litestream.DB
 	meta     string // meta directory on its own tmpfs ("" = no disk-full episodes)
 	hdrF     *os.File
+	startDelete, everInit bool
 	logs     *hist.LogCapture
 	lsRng    *rand.Rand
 	lsOps    []string
@@ -309,7 +332,11 @@ func (w *world) quiescent(after string) {
 	if w.hdrF == nil {
 		w.hdrF, _ = os.Open(w.path)
 	}
-	if f := w.hdrF; f != nil {
+	if w.ls != nil && w.ls.SQLDB() != nil {
+		w.everInit = true
+	}
+	// a database created in rollback-journal mode announces WAL only once litestream has opened it
+	if f := w.hdrF; f != nil && (!w.startDelete || w.everInit) {
 		hdr := make([]byte, 100)
 		_, rerr := f.ReadAt(hdr, 0)
 		if rerr == nil {
@@ -363,6 +390,9 @@ func (w *world) lsOp(ctx context.Context) {
 		}
 	}()
 	r := rng.Intn(20)
+	if w.startDelete && r >= 18 {
+		r = 16 // keep the DB object that found the database in rollback-journal mode (Close+Open, same object)
+	}
 	if full && r >= 16 {
 		r %= 16 // no Close/Open while the disk is full: a failing Open is legitimate there
 	}
@@ -487,6 +517,13 @@ func (w *world) replay(ctx context.Context, s spec, h []step) error {
 		return fmt.Errorf("create db: %w", err)
 	}
 	w.w = d
+	w.startDelete = s.StartDelete && w.treatment
+	if w.startDelete { // (the control run uses WAL mode throughout: only the data is compared with it)
+		var jm string
+		if err := d.QueryRow(`PRAGMA journal_mode=DELETE`).Scan(&jm); err != nil || jm != "delete" {
+			return fmt.Errorf("journal_mode=DELETE: %v %q", err, jm)
+		}
+	}
 	if w.r, err = sq.Open(w.path, 50, 0, 1); err != nil {
 		return err
 	}
@@ -502,6 +539,13 @@ func (w *world) replay(ctx context.Context, s spec, h []step) error {
 		}
 		if err := w.ls.Open(); err != nil {
 			return fmt.Errorf("litestream open: %w", err)
+		}
+		if w.startDelete {
+			// litestream's first sync switches the database to WAL mode before the
+			// application's readers and writers start to overlap
+			err := w.ls.Sync(ctx)
+			w.logf("first litestream sync on the rollback-journal database err=%v", err)
+			w.quiescent("first Sync")
 		}
 	}
 	for i, st := range h {
@@ -595,6 +639,9 @@ func (w *world) replay(ctx context.Context, s spec, h []step) error {
 	}
 	// end: litestream closes before or after the application, by its own PRNG
 	lsFirst := w.treatment && w.lsRng.Intn(2) == 0
+	if w.startDelete {
+		lsFirst = false // the application is gone when litestream shuts down
+	}
 	closeLS := func() {
 		if !w.treatment {
 			return
